@@ -5,9 +5,11 @@ finite domain; no statement of the repository is executed. The derived attribute
 is_limited, is_dynamic) are read from the property definitions in prophyc/model.py on every run.
 """
 import ast
+import re
 
 from .core import AnalysisError
 from .pyfront import unparse
+from .pyfront import ws  # noqa: E402,F401
 
 FIXED, DYNAMIC, UNLIMITED = 0, 1, 2
 KIND_NAMES = {'FIXED': FIXED, 'DYNAMIC': DYNAMIC, 'UNLIMITED': UNLIMITED}
@@ -162,6 +164,8 @@ class Evaluator(object):
                 return a > b
             if isinstance(op, ast.GtE):
                 return a >= b
+        if isinstance(e, ast.IfExp):
+            return self.ev(e.body, m) if self.ev(e.test, m) else self.ev(e.orelse, m)
         if isinstance(e, ast.Call) and unparse(e.func) == 'bool' and len(e.args) == 1:
             return bool(self.ev(e.args[0], m))
         if isinstance(e, ast.Call) and unparse(e.func) == 'abs' and len(e.args) == 1:
@@ -197,3 +201,69 @@ def classify_branches(ev, branches, dom):
     for m in dom:
         out[m] = [i for i, b in enumerate(branches) if truth(ev, b.guards, m)]
     return out
+
+
+# ------------------------------------------------------------------------------------------------ abstract execution
+def mentions(e, names):
+    return any(isinstance(x, ast.Name) and x.id in names for x in ast.walk(e))
+
+
+def abstract_exec(stmts, ev, am, member_vars, effects=None, maybe=()):
+    """Follows the path one abstract member takes through a statement list. Guards over the member (or over locals bound
+    from it) are decided by the predicate abstraction; guards over other state fork, their statements are recorded as
+    'maybe'. Simple statements are recorded as effects (text, maybe-conditions, node); a local bound to an evaluable
+    expression becomes known to later guards (copy propagation), so `is_seq = m.is_dynamic or m.greedy; if is_seq:` is
+    decided like the inlined guard.
+    Outcome: 'fall' | ('return', node) | ('raise', node) | 'continue' | 'break'."""
+    if effects is None:
+        effects = []
+    known = set(member_vars) | set(k for k in ev.env)
+    for st in stmts:
+        if isinstance(st, ast.If):
+            decided = False
+            if mentions(st.test, known | set(ev.env)):
+                try:
+                    t = bool(ev.ev(st.test, am))
+                    decided = True
+                except Unknown as e:
+                    names = set(x.id for x in ast.walk(st.test) if isinstance(x, ast.Name))
+                    if names <= (known | set(ev.env)):
+                        raise AnalysisError('guard term not recognised: %s' % e)
+            if decided:
+                out = abstract_exec(st.body if t else st.orelse, ev, am, member_vars, effects, maybe)[1]
+                if out != 'fall':
+                    return effects, out
+            else:
+                g = ws(unparse(st.test))
+                o1 = abstract_exec(st.body, ev, am, member_vars, effects, tuple(maybe) + ((True, st.test),))[1]
+                o2 = abstract_exec(st.orelse, ev, am, member_vars, effects, tuple(maybe) + ((False, st.test),))[1]
+                if o1 != 'fall' or o2 != 'fall':
+                    if o1 == o2 or (isinstance(o1, tuple) and isinstance(o2, tuple) and o1[0] == o2[0]):
+                        return effects, o1
+                    raise AnalysisError('a state guard `%s` decides whether the path leaves the block: not modelled' % g)
+        elif isinstance(st, ast.Return):
+            effects.append((ws(unparse(st)), tuple(maybe), st))
+            return effects, ('return', st)
+        elif isinstance(st, ast.Raise):
+            return effects, ('raise', st)
+        elif isinstance(st, ast.Continue):
+            return effects, 'continue'
+        elif isinstance(st, ast.Break):
+            return effects, 'break'
+        elif isinstance(st, (ast.Assign, ast.AugAssign, ast.Expr, ast.Pass, ast.Assert)):
+            if isinstance(st, ast.Assign) and len(st.targets) == 1 and isinstance(st.targets[0], ast.Name) and not maybe:
+                try:
+                    ev.env[st.targets[0].id] = ev.ev(st.value, am)
+                except Unknown:
+                    ev.env.pop(st.targets[0].id, None)
+            if not isinstance(st, ast.Pass):
+                effects.append((ws(unparse(st)), tuple(maybe), st))
+        elif isinstance(st, (ast.FunctionDef, ast.ClassDef)):
+            continue
+        else:
+            raise AnalysisError('statement kind %s not modelled in abstract execution' % type(st).__name__)
+    return effects, 'fall'
+
+
+def maybe_text(maybe):
+    return tuple(('' if pol else 'not ') + ws(unparse(t)) for pol, t in maybe)
